@@ -56,6 +56,7 @@ func runC16(c *Ctx) {
 		runPrefixMultiIA(c, c.Scale(3, 30))
 		runServeLoop4(c, c.Scale(6, 60))
 		runServeLoop6(c, c.Scale(6, 60))
+		runFramesConcurrent(c, c.Scale(30, 300))
 		runDualStackRefresh(c)
 		c.Extra["concurrent_phase"] = "race detector: concurrent datagrams through HandleMsg4 (server_id, file with autorefresh and the lease file rewritten in flight, range, dns, router, netmask) and HandleMsg6 (server_id, prefix, dns) with receive buffers from the server's pool, plus the allocator / range / prefix concurrent phases"
 		return
@@ -71,6 +72,7 @@ func runC16(c *Ctx) {
 	runPrefixMultiIA(c, c.Scale(8, 100))
 	runServeLoop4(c, c.Scale(10, 200))
 	runServeLoop6(c, c.Scale(10, 200))
+	runFramesConcurrent(c, c.Scale(40, 600))
 	c.Extra["rule"] = "rounds of 12 simultaneous datagrams through HandleMsg4 with the chain server_id, file (autorefresh; lease file rewritten in place between two tables while requests are in flight), range (24 addresses, filled to exhaustion), dns, router, netmask: 8 dynamic clients (alternately one new client 8 times / 8 new clients), 2 static clients, 1 truncated datagram, 1 BOOTREPLY; rounds of 10 simultaneous SOLICITs with IA_PD through HandleMsg6 with the chain server_id, prefix (16 blocks, to exhaustion), dns: same / different clients plus a truncated datagram and an unsupported message type; receive buffers come from the server's pool; replies matched to requests by transaction id; per range / prefix instance one linearisation case (witness order = order of the addresses given) run on the Coq model; then the allocator, range-handler and prefix-handler concurrent phases incl. the gated interleaving; all of it again under the race detector. non-trivial = a round in which at least two datagrams were answered"
 }
 
